@@ -197,6 +197,12 @@ def extra_cases(tier):
         theta = [gen.r6(z * sig * (1 + 0.1 * d)) for d in range(n_dim)] + [sig] * n_dim
         out.append(dict(mode='pop', pop=dict(kind='trunc', n_dim=n_dim), n_ids=n_ids, theta=theta, cov=None, covmode=None,
                         ns=ns, seed=11 + k))
+    # per-sample covariates recorded in a small unit (1e-9 ... 1e-12) whose rows differ: a pooled parameter with a
+    # covariate effect takes exactly the value its own row dictates (decided without statistics, in every run)
+    for k, (unit, n_ids, ns) in enumerate([(1e-9, 1, 6), (1e-12, 2, 9), (1e-9, 3, 4)]):
+        pop = dict(kind='cov', base=dict(kind='pooled', n_dim=1), n_cov=1, sel=None)
+        out.append(dict(mode='pop', pop=pop, n_ids=n_ids, theta=[2.0, gen.sig6(0.5 / unit)],
+                        cov=[[1.0 * unit], [3.0 * unit], [2.0 * unit]], covmode='tile', ns=ns, seed=23 + k))
     return out
 
 
@@ -418,6 +424,16 @@ def _check_em(case):
         case.true(np.array_equal(a_sig, sig_free) and np.array_equal(a_yb, ybar),
                   'sample() modified the arrays it was given: parameters %r -> %r, model output %r -> %r' % (
                       sig_free.tolist(), a_sig.tolist(), ybar.tolist()[:6], a_yb.tolist()[:6]), kind='input_modified')
+
+    # one generator object handed to successive calls (what the predictive models do, per output and per individual):
+    # the calls draw on, and together they are ONE sample of the documented density (pooled below with the seeded ones)
+    with case.clause('em_generator_seed:' + kind):
+        g = np.random.default_rng(int(s['seed']))
+        parts_g = [np.array(em.sample(sig_free.copy(), ybar.copy(), n_samples=2, seed=g), dtype=float) for _ in range(3)]
+        for a_, b_ in ((0, 1), (1, 2), (0, 2)):
+            case.true(not np.array_equal(parts_g[a_], parts_g[b_]),
+                      'calls %d and %d with the same generator object return identical samples: %r' % (
+                          a_ + 1, b_ + 1, parts_g[a_].ravel()[:4].tolist()), kind='identical')
 
     with case.clause('em_integer_inputs:' + kind):
         i_sig = np.maximum(1, np.round(np.abs(sig_free))).astype(int)
@@ -648,6 +664,23 @@ def _check_pop(case):
                 got = m.compute_log_likelihood(theta.copy(), xs.copy(), **kw)
                 case.close(float(got), want, rtol=1e-8, atol=1e-9,
                            what='log-likelihood of a sampled population of %d individuals vs the documented log-density' % n_pop)
+
+    # the sampled values are turned into individual parameters by the model itself, handed over the way a hierarchical
+    # likelihood does it: one flat vector that holds the entries of the hierarchical dimensions only (pooled and
+    # heterogeneous dimensions have none)
+    hd = [d for d, sp in enumerate(ref.pop_special(pop)) if sp is None]
+    if hd and not any(lf['kind'] == 'hetero' for lf in leaves) and pop['kind'] == 'comp':
+        with case.clause('pop_transform_flat'):
+            row = np.arange(n_ids) % R
+            cvs = None if cov is None else cov[row].copy()
+            xs = call(n_ids, stats.derive_seed(s['seed'], 'flat'), cvs)
+            want_psi = np.real(ref.pop_indiv(pop, n_ids, theta, xs, cvs))
+            kw = {} if cvs is None else {'covariates': cvs.copy()}
+            got_psi = np.asarray(m.compute_individual_parameters(theta.copy(), xs[:, hd].flatten(), **kw), dtype=float)
+            case.equal(got_psi.shape, (n_ids, n_dim), 'shape of the individual parameters from a flat vector', kind='shape')
+            case.close(got_psi, want_psi, rtol=1e-10, atol=1e-12,
+                       what='individual parameters of the sampled individuals, entries of the hierarchical dimensions '
+                            'given as one flat vector')
 
     # whole-number parameters typed as integers give the same seeded samples as the same numbers as floats
     if cov is None:
